@@ -289,6 +289,7 @@ func (f *Frame) execLoopInv(sh *loopShape, spec *LoopSpec, st *State) []Outcome 
 		h.assume(envFor(h).evalBool(inv.E))
 	}
 	var outs []Outcome
+	head := h.clone()
 	conds := []condState{{h, TTrue}}
 	if sh.cond != nil {
 		conds = sh.cond(h)
@@ -307,6 +308,13 @@ func (f *Frame) execLoopInv(sh *loopShape, spec *LoopSpec, st *State) []Outcome 
 		for _, o := range f.execBlock(sh.body.List, yes) {
 			switch {
 			case o.Kind == ONormal, o.Kind == OContinue && f.matchLabel(o, sh):
+				for i, a := range spec.Asserts {
+					env := f.specEnvAt(o.St, sh.body.End()-1)
+					env.pre = head
+					goal := env.evalBool(a.E)
+					f.oblige(o.St, "assert", fmt.Sprintf("%s#loop%d.assert:%d", f.key, sh.ord, i+1), sh.pos, goal, a.Text)
+					o.St.assume(goal)
+				}
 				for _, ps := range sh.post(o.St) {
 					for i, inv := range spec.Invariants {
 						goal := envFor(ps).evalBool(inv.E)
